@@ -27,7 +27,7 @@ import re
 import subprocess
 import sys
 
-from mc.core import Check, h, Stats, VERIF, REPO
+from mc.core import Check, Stats, VERIF, REPO
 # imported here (not lazily in the workers) so that every forked worker runs the same harness code
 from mc import httph
 from mc.vloop import World, outcome
@@ -173,14 +173,14 @@ UPGRADE = {
 }
 CONNECTION = {
     "quick": [("Upgrade", "Upgrade"), ("ka,Upgrade", "keep-alive, Upgrade"), ("absent", None),
-              ("close", "close"), ("ka,xupgrade", "keep-alive, xupgrade")],
+              ("ka,xupgrade", "keep-alive, xupgrade")],
     "thorough": [("Upgrade", "Upgrade"), ("upgrade", "upgrade"),
                  ("ka,Upgrade", "keep-alive, Upgrade"),
                  ("two-lines", ["keep-alive", "Upgrade"]), ("absent", None),
                  ("close", "close"), ("ka,xupgrade", "keep-alive, xupgrade")],
 }
 KEY = {
-    "quick": [("valid", VALID_KEY), ("absent", None), ("empty", ""), ("short", "abc")],
+    "quick": [("valid", VALID_KEY), ("absent", None), ("short", "abc")],
     "thorough": [("valid", VALID_KEY), ("valid2", VALID_KEY2), ("absent", None), ("empty", ""),
                  ("short", "abc")],
 }
@@ -1076,9 +1076,6 @@ class C17(Check):
                     elif sig.startswith("server:rejected-valid:403"):
                         sig2 = sig + ":host=%s,origin=%s" % (
                             "lower" if hv == (hv or "").lower() else "mixed-case", ot)
-                    elif sig.startswith("server:rejected-valid:"):
-                        sig2 = sig + ":" + ",".join(
-                            x for x in (ul, cl, kl, vl) if x not in ("websocket", "Upgrade", "valid", "13"))
                     st.violation(sig2, msg + "  [request %r, policy %s, compression %r -> %r]"
                                  % (build_request(hdrs, nc, "/ws/%s/%d" % (pol, en)), pol, en,
                                     obs["out"][:200]), case)
